@@ -80,6 +80,9 @@ pub mod env {
     /*@item sbor/src/decoder.rs :: enum DecodeError
     @derive Copy, Clone, PartialEq, Eq
     @*/
+    /// `Result::unwrap` needs `E: Debug`
+    #[verifier::external]
+    impl core::fmt::Debug for EncodeError { fn fmt(&self, f: &mut core::fmt::Formatter) -> core::fmt::Result { Ok(()) } }
     /// SBOR size prefix: unsigned LEB128 (oracle of unit c20_size_codec)
     pub open spec fn leb(n: nat) -> Seq<u8>
         decreases n
@@ -98,22 +101,118 @@ pub mod env {
         spec fn out(&self) -> Seq<u8>;
         /// ghost: this encoder's byte sink cannot fail (true of VecEncoder, the only implementor in /repo)
         spec fn infallible(&self) -> bool;
+        /// ghost (prophetic): the eventual contents of the sink this encoder writes through (for VecEncoder the
+        /// final value of the borrowed buffer); writing never re-targets the encoder
+        #[verifier::prophetic]
+        spec fn sink_final(&self) -> Seq<u8>;
         fn write_discriminator(&mut self, discriminator: u8) -> (ret: Result<(), EncodeError>)
             ensures
+                final(self).sink_final() == old(self).sink_final(),
                 final(self).infallible() == old(self).infallible(),
                 old(self).infallible() ==> ret is Ok,
                 ret is Ok ==> final(self).out() == old(self).out().push(discriminator);
         fn write_size(&mut self, size: usize) -> (ret: Result<(), EncodeError>)
             ensures
+                final(self).sink_final() == old(self).sink_final(),
                 final(self).infallible() == old(self).infallible(),
                 old(self).infallible() && size <= 0x0FFF_FFFF ==> ret is Ok,
                 ret is Ok ==> size <= 0x0FFF_FFFF && final(self).out() == old(self).out() + leb(size as nat);
         fn write_slice(&mut self, slice: &[u8]) -> (ret: Result<(), EncodeError>)
             ensures
+                final(self).sink_final() == old(self).sink_final(),
                 final(self).infallible() == old(self).infallible(),
                 old(self).infallible() ==> ret is Ok,
                 ret is Ok ==> final(self).out() == old(self).out() + slice@;
     }
+
+    /// sbor VecEncoder (struct shape and `new` as in sbor/src/encoder.rs; the three write methods carry the
+    /// trait contract with `out()` = the borrowed buffer, and never fail: `buf.push` / `buf.extend`)
+    pub struct ScryptoCustomValueKind;
+    impl CustomValueKind for ScryptoCustomValueKind {}
+    pub struct VecEncoder<'a, X: CustomValueKind> {
+        pub buf: &'a mut Vec<u8>,
+        pub max_depth: usize,
+        pub stack_depth: usize,
+        pub phantom: core::marker::PhantomData<X>,
+    }
+    pub type ScryptoEncoder<'a> = VecEncoder<'a, ScryptoCustomValueKind>;
+    impl<'a, X: CustomValueKind> VecEncoder<'a, X> {
+        pub fn new(buf: &'a mut Vec<u8>, max_depth: usize) -> (ret: Self)
+            ensures ret.out() == old(buf)@, ret.infallible(), ret.sink_final() == final(buf)@
+        {
+            Self { buf, max_depth, stack_depth: 0, phantom: core::marker::PhantomData }
+        }
+    }
+    impl<'a, X: CustomValueKind> Encoder<X> for VecEncoder<'a, X> {
+        open spec fn out(&self) -> Seq<u8> { (*self.buf)@ }
+        open spec fn infallible(&self) -> bool { true }
+        #[verifier::prophetic]
+        open spec fn sink_final(&self) -> Seq<u8> { (*final(self.buf))@ }
+        #[verifier::external_body]
+        fn write_discriminator(&mut self, discriminator: u8) -> (ret: Result<(), EncodeError>)
+            ensures ret is Ok
+        { unimplemented!() }
+        #[verifier::external_body]
+        fn write_size(&mut self, size: usize) -> (ret: Result<(), EncodeError>)
+        { unimplemented!() }
+        #[verifier::external_body]
+        fn write_slice(&mut self, slice: &[u8]) -> (ret: Result<(), EncodeError>)
+            ensures ret is Ok
+        { unimplemented!() }
+    }
+
+    pub trait Decoder<X: CustomValueKind>: Sized {
+        /// ghost: the whole input and the read position
+        spec fn input(&self) -> Seq<u8>;
+        spec fn pos(&self) -> int;
+        /// provided method `read_discriminator` = `read_byte` (contract proved for VecDecoder in c20_size_codec)
+        fn read_discriminator(&mut self) -> (ret: Result<u8, DecodeError>)
+            requires wf_at(old(self).input(), old(self).pos())
+            ensures
+                wf_at(final(self).input(), final(self).pos()), final(self).input() == old(self).input(),
+                ret is Ok <==> old(self).pos() < old(self).input().len(),
+                ret matches Ok(b) ==> b == old(self).input()[old(self).pos()] && final(self).pos() == old(self).pos() + 1;
+        /// provided method `read_size` (this contract is PROVED on the real body in c20_size_codec)
+        fn read_size(&mut self) -> (ret: Result<usize, DecodeError>)
+            requires wf_at(old(self).input(), old(self).pos())
+            ensures
+                wf_at(final(self).input(), final(self).pos()), final(self).input() == old(self).input(),
+                ret matches Ok(n) ==> n <= 0x0FFF_FFFF && is_prefix(leb(n as nat), rest_of(old(self).input(), old(self).pos()))
+                    && final(self).pos() == old(self).pos() + leb(n as nat).len(),
+                ret is Err ==> forall|n: nat| n <= max_size() ==> !is_prefix(#[trigger] leb(n), rest_of(old(self).input(), old(self).pos())),
+                forall|n: nat| n <= max_size() && is_prefix(#[trigger] leb(n), rest_of(old(self).input(), old(self).pos())) ==> ret == Ok::<usize, DecodeError>(n as usize);
+        /// `read_slice(n)`: the next n bytes, or an error when fewer remain (VecDecoder: require_remaining + `&input[offset..offset + n]`)
+        fn read_slice(&mut self, n: usize) -> (ret: Result<&[u8], DecodeError>)
+            requires wf_at(old(self).input(), old(self).pos())
+            ensures
+                wf_at(final(self).input(), final(self).pos()), final(self).input() == old(self).input(),
+                ret is Ok <==> old(self).pos() + n <= old(self).input().len(),
+                ret matches Ok(sl) ==> sl@ == old(self).input().subrange(old(self).pos(), old(self).pos() + n) && final(self).pos() == old(self).pos() + n;
+    }
+
+    /// core::str::from_utf8: succeeds exactly on well-formed UTF-8, returning the string those bytes encode
+    /// (vstd: `encode_utf8` is the UTF-8 encoder, `str::as_bytes(s) == encode_utf8(s@)`)
+    #[verifier::external_type_specification]
+    #[verifier::external_body]
+    pub struct ExUtf8Error(core::str::Utf8Error);
+    pub assume_specification [core::str::from_utf8] (v: &[u8]) -> (r: Result<&str, core::str::Utf8Error>)
+        ensures
+            r matches Ok(s) ==> vstd::utf8::encode_utf8(s@) == v@,
+            r is Err ==> forall|cs: Seq<char>| #[trigger] vstd::utf8::encode_utf8(cs) != v@;
+
+    /// radix-rust/src/slice.rs :: copy_u8_array -- panics unless the length matches (same contract as shims/bytes.rs)
+    #[verifier::external_body]
+    pub fn copy_u8_array<const N: usize>(slice: &[u8]) -> (r: [u8; N])
+        requires slice@.len() == N
+        ensures r@ == slice@
+    { unimplemented!() }
+    /// `<[T]>::to_vec` clones element-wise; for element types whose clone is the identity (u8) the result
+    /// is the same sequence
+    pub assume_specification<T: Clone> [<[T]>::to_vec] (s: &[T]) -> (r: Vec<T>)
+        ensures
+            r@.len() == s@.len(),
+            forall|i: int| 0 <= i < s@.len() ==> cloned(s@[i], #[trigger] r@[i]),
+            (forall|x: T, y: T| cloned(x, y) ==> x == y) ==> r@ == s@;
 
     /// `u64::to_be_bytes` / `u64::from_be_bytes` (std: most significant byte first). Verus cannot attach a
     /// specification to the inherent methods (the array length is an anonymous const), hence free fns.
@@ -130,6 +229,79 @@ pub mod env {
     #[verifier::external_body]
     pub fn u64_from_be_bytes(a: [u8; 8]) -> (r: u64) ensures r == be_val(a@) { u64::from_be_bytes(a) }
 
+    // ---- third-party `bech32` crate and `core::fmt`: ABSTRACT model (uninterpreted codec) ------------------
+    pub mod fmt {
+        use vstd::prelude::*;
+        /// `core::fmt::Write`: a text sink; ghost `text()` = everything written so far
+        pub trait Write { spec fn text(&self) -> Seq<char>; }
+        pub struct Error;
+        pub type Result = core::result::Result<(), Error>;
+        impl Write for String { open spec fn text(&self) -> Seq<char> { self@ } }
+    }
+    pub mod bech32 {
+        use vstd::prelude::*;
+        #[allow(non_camel_case_types)]
+        pub struct u5(pub u8);
+        pub enum Variant { Bech32, Bech32m }
+        pub struct Error { pub code: u8 }
+        /// the library's decoder / encoder and 8<->5 bit regrouping, as uninterpreted functions of the text
+        pub uninterp spec fn spec_decode(text: Seq<char>) -> Option<(Seq<char>, Seq<u5>, Variant)>;
+        pub uninterp spec fn spec_encode(hrp: Seq<char>, data: Seq<u5>, v: Variant) -> Option<Seq<char>>;
+        pub uninterp spec fn spec_from_base32(d: Seq<u5>) -> Option<Seq<u8>>;
+        pub uninterp spec fn spec_to_base32(d: Seq<u8>) -> Seq<u5>;
+        #[verifier::external_body]
+        pub fn decode(s: &str) -> (r: Result<(String, Vec<u5>, Variant), Error>)
+            ensures
+                r matches Ok(t) ==> spec_decode(s@) == Some((t.0@, t.1@, t.2)),
+                r is Err ==> spec_decode(s@) is None,
+        { unimplemented!() }
+        pub trait FromBase32: Sized {
+            type Err;
+            fn from_base32(b32: &[u5]) -> Result<Self, Self::Err>;
+        }
+        impl FromBase32 for Vec<u8> {
+            type Err = Error;
+            #[verifier::external_body]
+            fn from_base32(b32: &[u5]) -> (r: Result<Self, Self::Err>)
+                ensures
+                    r matches Ok(v) ==> spec_from_base32(b32@) == Some(v@),
+                    r is Err ==> spec_from_base32(b32@) is None,
+            { unimplemented!() }
+        }
+        pub trait ToBase32 { fn to_base32(&self) -> Vec<u5>; }
+        impl ToBase32 for [u8] {
+            #[verifier::external_body]
+            fn to_base32(&self) -> (r: Vec<u5>)
+                ensures r@ == spec_to_base32(self@)
+            { unimplemented!() }
+        }
+    }
+    impl AsRef<[bech32::u5]> for Vec<bech32::u5> {
+        open spec fn as_ref_spec(&self) -> &[bech32::u5] { vec_u5_as_slice(self) }
+        #[verifier::external_body]
+        fn as_ref(&self) -> (r: &[bech32::u5]) { self.as_slice() }
+    }
+    pub uninterp spec fn vec_u5_as_slice(v: &Vec<bech32::u5>) -> &[bech32::u5];
+    pub broadcast axiom fn ax_vec_u5_as_slice(v: &Vec<bech32::u5>)
+        ensures #[trigger] vec_u5_as_slice(v)@ == v@;
+    /// radix-common/src/address/encoder.rs :: bech32_encode_to_fmt -- the repository's adaptation of the bech32
+    /// crate's `encode_to_fmt` (HRP check, Bech32Writer, checksum): part of the codec model, NOT under contract
+    #[verifier::external_body]
+    pub fn bech32_encode_to_fmt<F: fmt::Write, T: AsRef<[bech32::u5]>>(
+        fmt: &mut F, hrp: &str, data: T, variant: bech32::Variant,
+    ) -> (r: Result<fmt::Result, bech32::Error>)
+        ensures
+            r matches Ok(Ok(_)) ==> bech32::spec_encode(hrp@, data.as_ref_spec()@, variant) matches Some(t)
+                && final(fmt).text() == old(fmt).text() + t,
+            r is Err ==> bech32::spec_encode(hrp@, data.as_ref_spec()@, variant) is None,
+    { unimplemented!() }
+    /// strum `FromRepr` derive: `EntityType::from_repr` is SOME function of the byte (the discriminant table is
+    /// not needed for what is proved about the address glue)
+    pub uninterp spec fn spec_from_repr(b: u8) -> Option<super::unit::EntityType>;
+    /// `impl PartialEq<&str> for String` (std): string contents are compared
+    pub assume_specification<'a> [<String as PartialEq<&'a str>>::ne] (a: &String, b: &&str) -> (r: bool)
+        ensures r == (a@ != (*b)@);
+
     /// std: `char::is_ascii_digit` is `matches!(*self, '0'..='9')`
     pub assume_specification [char::is_ascii_digit] (c: &char) -> (r: bool)
         ensures r == ('0' <= *c && *c <= '9');
@@ -141,7 +313,12 @@ pub mod unit {
     use vstd::utf8::*;
     use super::rt::*;
     use super::env::*;
-    broadcast use ax_string_as_str;
+    broadcast use {ax_string_as_str, ax_vec_u5_as_slice};
+
+    // (declared first: placed after the other items, this Verus build mis-evaluates the binary discriminant literals)
+    /*@item radix-common/src/types/entity_type.rs :: enum EntityType
+    @derive Clone, Copy
+    @*/
 
     /*@item radix-common/src/data/scrypto/model/non_fungible_local_id.rs :: const NON_FUNGIBLE_LOCAL_ID_MAX_LENGTH
     @*/
@@ -528,7 +705,7 @@ pub mod unit {
         type Error = ContentValidationError;
         /*@fn radix-common/src/data/scrypto/model/non_fungible_local_id.rs :: impl TryFrom<Vec<u8>> for BytesNonFungibleLocalId :: fn try_from
         @sig
-            ensures ret == <Self as TryFromSpecImpl<Vec<u8>>>::try_from_spec(value)
+            ensures ret == (if valid_bytes_id(value@) { Ok(BytesNonFungibleLocalId(Cow::Owned(value))) } else { Err(bytes_error(value@)) })
         @*/
     }
     impl TryFromSpecImpl<Vec<u8>> for NonFungibleLocalId {
@@ -607,6 +784,63 @@ pub mod unit {
         &&& (s.len() > 1 ==> s[0] != '0')
     }
 
+    /// the number a digit string denotes
+    pub open spec fn dec_val(s: Seq<char>) -> nat
+        decreases s.len()
+    {
+        if s.len() == 0 { 0 } else { 10 * dec_val(s.drop_last()) + ((s.last() as u32 - '0' as u32) as nat) }
+    }
+    pub proof fn lemma_dec_pos(s: Seq<char>)
+        requires s.len() >= 1, forall|i: int| 0 <= i < s.len() ==> is_digit(#[trigger] s[i]), s[0] != '0'
+        ensures dec_val(s) >= 1, s.len() >= 2 ==> dec_val(s) >= 10
+        decreases s.len()
+    {
+        assert(is_digit(s.last()));
+        if s.len() == 1 {
+            assert(s.drop_last().len() == 0);
+            assert(s.last() == s[0]);
+        } else {
+            let t = s.drop_last();
+            assert forall|i: int| 0 <= i < t.len() implies is_digit(#[trigger] t[i]) by { assert(t[i] == s[i]); }
+            assert(t[0] == s[0]);
+            lemma_dec_pos(t);
+        }
+    }
+    /// "canonical" means: every number has exactly ONE accepted text
+    pub proof fn lemma_canonical_unique(a: Seq<char>, b: Seq<char>)
+        requires canonical_decimal(a), canonical_decimal(b), dec_val(a) == dec_val(b)
+        ensures a == b
+        decreases a.len()
+    {
+        let (ta, tb) = (a.drop_last(), b.drop_last());
+        let da = (a.last() as u32 - '0' as u32) as nat; let db = (b.last() as u32 - '0' as u32) as nat;
+        assert(is_digit(a.last()) && is_digit(b.last()));
+        assert(da < 10 && db < 10);
+        assert(dec_val(a) == 10 * dec_val(ta) + da && dec_val(b) == 10 * dec_val(tb) + db);
+        assert(da == db && dec_val(ta) == dec_val(tb));
+        assert(a.last() == b.last());
+        assert forall|i: int| 0 <= i < ta.len() implies is_digit(#[trigger] ta[i]) by { assert(ta[i] == a[i]); }
+        assert forall|i: int| 0 <= i < tb.len() implies is_digit(#[trigger] tb[i]) by { assert(tb[i] == b[i]); }
+        if a.len() == 1 && b.len() == 1 {
+        } else if a.len() == 1 {
+            assert(dec_val(ta) == 0);
+            assert(tb[0] == b[0]);
+            lemma_dec_pos(tb);
+            assert(false);
+        } else if b.len() == 1 {
+            assert(dec_val(tb) == 0);
+            assert(ta[0] == a[0]);
+            lemma_dec_pos(ta);
+            assert(false);
+        } else {
+            assert(ta[0] == a[0] && tb[0] == b[0]);
+            assert(canonical_decimal(ta) && canonical_decimal(tb));
+            lemma_canonical_unique(ta, tb);
+        }
+        assert(a =~= ta.push(a.last()));
+        assert(b =~= tb.push(b.last()));
+    }
+
     /*@fn radix-common/src/data/scrypto/model/non_fungible_local_id.rs :: fn is_canonically_formatted_integer
     @sig
         ensures ret == canonical_decimal(digits@)
@@ -666,9 +900,306 @@ pub mod unit {
                 ret is Ok ==> final(encoder).out() == old(encoder).out() + enc(view_of(*self)),
                 wf(*self) && old(encoder).infallible() ==> ret is Ok,
                 final(encoder).infallible() == old(encoder).infallible(),
+                final(encoder).sink_final() == old(encoder).sink_final(),
         @entry
             proof { if *self is String { lemma_string_bridge(cow_chars(self->String_0.0)); } }
         @*/
+    }
+
+    impl NonFungibleLocalId {
+        /*@fn radix-common/src/data/scrypto/model/non_fungible_local_id.rs :: impl NonFungibleLocalId :: fn to_vec
+        @sig
+            requires wf(*self)
+            ensures ret@ == enc(view_of(*self))
+        @*/
+    }
+
+    /// what an input that STARTS WITH the encoding of a valid id looks like, in the terms in which the
+    /// decoder's reads are specified (position arithmetic on `input`)
+    pub open spec fn shape(v: IdView, input: Seq<u8>, p: int) -> bool {
+        &&& p < input.len()
+        &&& match v {
+            IdView::String(s) => {
+                let b = encode_utf8(s); let l = leb(b.len()).len() as int;
+                &&& input[p] == 0 && b.len() <= 64
+                &&& is_prefix(leb(b.len()), rest_of(input, p + 1))
+                &&& p + 1 + l + b.len() <= input.len()
+                &&& input.subrange(p + 1 + l, p + 1 + l + b.len()) == b
+            },
+            IdView::Integer(n) => input[p] == 1 && p + 9 <= input.len() && input.subrange(p + 1, p + 1 + 8) == be8(n),
+            IdView::Bytes(b) => {
+                let l = leb(b.len()).len() as int;
+                &&& input[p] == 2 && b.len() <= 64
+                &&& is_prefix(leb(b.len()), rest_of(input, p + 1))
+                &&& p + 1 + l + b.len() <= input.len()
+                &&& input.subrange(p + 1 + l, p + 1 + l + b.len()) == b
+            },
+            IdView::RUID(r) => input[p] == 3 && p + 33 <= input.len() && input.subrange(p + 1, p + 1 + 32) == r,
+        }
+    }
+    pub proof fn lemma_enc_shape(v: IdView, input: Seq<u8>, p: int)
+        requires valid_id(v), wf_at(input, p), is_prefix(enc(v), rest_of(input, p))
+        ensures shape(v, input, p), enc(v).len() >= 1
+    {
+        let r = rest_of(input, p);
+        let e = enc(v);
+        assert(e.len() >= 1);
+        assert(e[0] == r[0] && r[0] == input[p]);
+        match v {
+            IdView::String(s) => {
+                lemma_string_bridge(s);
+                let b = encode_utf8(s); let lb = leb(b.len()); let l = lb.len() as int;
+                assert(e == seq![0u8] + lb + b);
+                assert forall|j: int| 0 <= j < lb.len() implies lb[j] == rest_of(input, p + 1)[j] by { assert(e[j + 1] == r[j + 1]); }
+                assert(input.subrange(p + 1 + l, p + 1 + l + b.len()) =~= b) by {
+                    assert forall|j: int| 0 <= j < b.len() implies input[p + 1 + l + j] == b[j] by { assert(e[1 + l + j] == r[1 + l + j]); }
+                }
+            },
+            IdView::Integer(n) => {
+                lemma_be_round(n);
+                assert(input.subrange(p + 1, p + 1 + 8) =~= be8(n)) by {
+                    assert forall|j: int| 0 <= j < 8 implies input[p + 1 + j] == be8(n)[j] by { assert(e[1 + j] == r[1 + j]); }
+                }
+            },
+            IdView::Bytes(b) => {
+                let lb = leb(b.len()); let l = lb.len() as int;
+                assert(e == seq![2u8] + lb + b);
+                assert forall|j: int| 0 <= j < lb.len() implies lb[j] == rest_of(input, p + 1)[j] by { assert(e[j + 1] == r[j + 1]); }
+                assert(input.subrange(p + 1 + l, p + 1 + l + b.len()) =~= b) by {
+                    assert forall|j: int| 0 <= j < b.len() implies input[p + 1 + l + j] == b[j] by { assert(e[1 + l + j] == r[1 + l + j]); }
+                }
+            },
+            IdView::RUID(x) => {
+                assert(input.subrange(p + 1, p + 1 + 32) =~= x) by {
+                    assert forall|j: int| 0 <= j < 32 implies input[p + 1 + j] == x[j] by { assert(e[1 + j] == r[1 + j]); }
+                }
+            },
+        }
+    }
+    /// conversely: an input with that shape starts with the encoding
+    pub proof fn lemma_shape_enc(v: IdView, input: Seq<u8>, p: int)
+        requires wf_at(input, p), shape(v, input, p), v is RUID ==> v->RUID_0.len() == 32
+        ensures is_prefix(enc(v), rest_of(input, p))
+    {
+        let r = rest_of(input, p);
+        let e = enc(v);
+        match v {
+            IdView::String(s) => {
+                let b = encode_utf8(s); let lb = leb(b.len()); let l = lb.len() as int;
+                assert(e == seq![0u8] + lb + b);
+                assert forall|j: int| 0 <= j < e.len() implies e[j] == r[j] by {
+                    if 1 <= j < 1 + l { assert(lb[j - 1] == rest_of(input, p + 1)[j - 1]); }
+                    else if j >= 1 + l { assert(input.subrange(p + 1 + l, p + 1 + l + b.len())[j - 1 - l] == b[j - 1 - l]); }
+                }
+            },
+            IdView::Integer(n) => {
+                lemma_be_round(n);
+                assert forall|j: int| 0 <= j < e.len() implies e[j] == r[j] by {
+                    if j >= 1 { assert(input.subrange(p + 1, p + 1 + 8)[j - 1] == be8(n)[j - 1]); }
+                }
+            },
+            IdView::Bytes(b) => {
+                let lb = leb(b.len()); let l = lb.len() as int;
+                assert(e == seq![2u8] + lb + b);
+                assert forall|j: int| 0 <= j < e.len() implies e[j] == r[j] by {
+                    if 1 <= j < 1 + l { assert(lb[j - 1] == rest_of(input, p + 1)[j - 1]); }
+                    else if j >= 1 + l { assert(input.subrange(p + 1 + l, p + 1 + l + b.len())[j - 1 - l] == b[j - 1 - l]); }
+                }
+            },
+            IdView::RUID(x) => {
+                assert forall|j: int| 0 <= j < e.len() implies e[j] == r[j] by {
+                    if j >= 1 { assert(input.subrange(p + 1, p + 1 + 32)[j - 1] == x[j - 1]); }
+                }
+            },
+        }
+    }
+    /// the UTF-8 image determines a valid string id
+    pub proof fn lemma_utf8_inj_valid(a: Seq<char>, b: Seq<char>)
+        requires valid_string_id(a), encode_utf8(a) == encode_utf8(b)
+        ensures a == b
+    {
+        lemma_string_bridge(a); lemma_string_bridge(b);
+        lemma_utf8(a); lemma_utf8(b);
+        assert(valid_string_id(b));
+        assert forall|i: int| 0 <= i < a.len() implies (#[trigger] a[i] as u32) < 128 by { assert(ok_char(a[i])); }
+        assert forall|i: int| 0 <= i < b.len() implies (#[trigger] b[i] as u32) < 128 by { assert(ok_char(b[i])); }
+        assert(ascii_bytes(a) == ascii_bytes(b));
+        assert(a.len() == b.len());
+        assert forall|i: int| 0 <= i < a.len() implies a[i] == b[i] by {
+            assert(ascii_bytes(a)[i] == ascii_bytes(b)[i]);
+            assert((a[i] as u32) < 128 && (b[i] as u32) < 128);
+        }
+        assert(a =~= b);
+    }
+
+    impl NonFungibleLocalId {
+        /*@fn radix-common/src/data/scrypto/model/non_fungible_local_id.rs :: impl NonFungibleLocalId :: fn decode_body_common
+        @subst <<u64::from_be_bytes(>> => <<u64_from_be_bytes(>> why: Verus cannot give `u64::from_be_bytes` a specification (anonymous-const array length); env::u64_from_be_bytes is the same call with the std contract (big endian)
+        @closure 1 := |_e: core::str::Utf8Error| -> (r: DecodeError) ensures r == DecodeError::InvalidCustomValue
+        @closure 2 := |_e: ContentValidationError| -> (r: DecodeError) ensures r == DecodeError::InvalidCustomValue
+        @closure 3 := |_e: ContentValidationError| -> (r: DecodeError) ensures r == DecodeError::InvalidCustomValue
+        @sig
+            requires wf_at(old(decoder).input(), old(decoder).pos())
+            ensures
+                final(decoder).input() == old(decoder).input(), wf_at(final(decoder).input(), final(decoder).pos()),
+                // accepted ==> a VALID id, and the bytes consumed are exactly its own encoding (unique encoding)
+                ret matches Ok(id) ==> wf(id) && shape(view_of(id), old(decoder).input(), old(decoder).pos())
+                    && final(decoder).pos() == old(decoder).pos() + enc(view_of(id)).len(),
+                // round trip: an input that starts with the encoding of a valid id decodes to that id
+                forall|v: IdView| valid_id(v) && #[trigger] shape(v, old(decoder).input(), old(decoder).pos())
+                    ==> (ret matches Ok(id) && view_of(id) == v),
+        @entry
+            let ghost inp = decoder.input();
+            let ghost p0 = decoder.pos();
+            proof {
+                assert forall|sq: Seq<u8>| sq.len() == 8 implies be8(#[trigger] be_val(sq)) == sq by { lemma_be_inj(sq); }
+                assert forall|n: u64| be_val(#[trigger] be8(n)) == n && be8(n).len() == 8 by { lemma_be_round(n); }
+                assert forall|a: Seq<char>, b: Seq<char>| valid_string_id(a) && #[trigger] encode_utf8(a) == #[trigger] encode_utf8(b) implies a == b by { lemma_utf8_inj_valid(a, b); }
+                assert forall|a: Seq<char>| valid_string_bytes(#[trigger] encode_utf8(a)) == valid_string_id(a) by { lemma_string_bridge(a); }
+            }
+        @*/
+    }
+
+    /// COROLLARY (binary round trip, stated on sequences): whatever a correct encoder wrote for a valid id,
+    /// followed by anything, has the shape the decoder contract needs -- so decode(encode(id) ++ tail) == id.
+    pub proof fn theorem_binary_round_trip(v: IdView, before: Seq<u8>, tail: Seq<u8>)
+        requires valid_id(v)
+        ensures shape(v, before + enc(v) + tail, before.len() as int)
+    {
+        let input = before + enc(v) + tail;
+        let p = before.len() as int;
+        assert(is_prefix(enc(v), rest_of(input, p))) by {
+            assert forall|j: int| 0 <= j < enc(v).len() implies enc(v)[j] == rest_of(input, p)[j] by { }
+        }
+        lemma_enc_shape(v, input, p);
+    }
+
+    // =============================================================================================
+    // ADDRESSES (radix-common/src/address): the glue around the third-party Bech32m codec.
+    // The codec itself (bech32 crate, and encoder.rs :: bech32_encode_to_fmt / bech32_check_hrp, copied
+    // from that crate) is an UNINTERPRETED model in env::bech32; what is proved is what the repository's
+    // own code adds: variant check, entity-type byte check, and the network (HRP) check.
+    // =============================================================================================
+    use super::env::bech32::{self, FromBase32, ToBase32, Variant};
+    use super::env::fmt;
+    /// strum `FromRepr` derive (macro-generated, cannot be extracted): modelled by env::spec_from_repr
+    impl EntityType {
+        #[verifier::external_body]
+        pub fn from_repr(discriminant: u8) -> (r: Option<EntityType>)
+            ensures r == spec_from_repr(discriminant)
+        { unimplemented!() }
+    }
+    /*@item radix-common/src/address/hrpset.rs :: struct HrpSet
+    @derive
+    @*/
+    /*@item radix-common/src/address/errors.rs :: enum AddressBech32EncodeError
+    @derive
+    @*/
+    /*@item radix-common/src/address/errors.rs :: enum AddressBech32DecodeError
+    @derive
+    @*/
+    /*@item radix-common/src/address/decoder.rs :: struct AddressBech32Decoder
+    @derive
+    @*/
+    /*@item radix-common/src/address/encoder.rs :: struct AddressBech32Encoder
+    @derive
+    @*/
+
+    /// ORACLE: which human-readable part an entity type carries on a network (REP-60 / REP-71 families)
+    pub open spec fn hrp_of(h: HrpSet, e: EntityType) -> Seq<char> {
+        match e {
+            EntityType::GlobalPackage => h.package@,
+            EntityType::GlobalFungibleResourceManager | EntityType::GlobalNonFungibleResourceManager => h.resource@,
+            EntityType::GlobalGenericComponent => h.component@,
+            EntityType::GlobalAccount | EntityType::GlobalPreallocatedSecp256k1Account | EntityType::GlobalPreallocatedEd25519Account => h.account@,
+            EntityType::GlobalIdentity | EntityType::GlobalPreallocatedSecp256k1Identity | EntityType::GlobalPreallocatedEd25519Identity => h.identity@,
+            EntityType::GlobalConsensusManager => h.consensus_manager@,
+            EntityType::GlobalValidator => h.validator@,
+            EntityType::GlobalAccessController => h.access_controller@,
+            EntityType::GlobalOneResourcePool | EntityType::GlobalTwoResourcePool | EntityType::GlobalMultiResourcePool => h.pool@,
+            EntityType::GlobalAccountLocker => h.locker@,
+            EntityType::GlobalTransactionTracker => h.transaction_tracker@,
+            EntityType::InternalFungibleVault | EntityType::InternalNonFungibleVault => h.internal_vault@,
+            EntityType::InternalGenericComponent => h.internal_component@,
+            EntityType::InternalKeyValueStore => h.internal_key_value_store@,
+        }
+    }
+    /// ORACLE: the texts a network's decoder accepts, and what they denote
+    pub open spec fn accepts(h: HrpSet, text: Seq<char>) -> Option<(EntityType, Seq<u8>)> {
+        match bech32::spec_decode(text) {
+            Some((hrp, d5, Variant::Bech32m)) => match bech32::spec_from_base32(d5) {
+                Some(data) => if data.len() == 0 { None } else {
+                    match spec_from_repr(data[0]) {
+                        Some(e) => if hrp == hrp_of(h, e) { Some((e, data)) } else { None },
+                        None => None,
+                    }
+                },
+                None => None,
+            },
+            _ => None,
+        }
+    }
+
+    impl HrpSet {
+        /*@fn radix-common/src/address/hrpset.rs :: impl HrpSet :: fn get_entity_hrp
+        @sig
+            ensures ret@ == hrp_of(*self, *entity)
+        @*/
+    }
+    impl AddressBech32Decoder {
+        /*@fn radix-common/src/address/decoder.rs :: impl AddressBech32Decoder :: fn validate_and_decode_ignore_hrp
+        @subst <<.map_err(AddressBech32DecodeError::Bech32mDecodingError)>> => <<.map_err(|e: bech32::Error| -> (r: AddressBech32DecodeError) ensures r == AddressBech32DecodeError::Bech32mDecodingError(e) { AddressBech32DecodeError::Bech32mDecodingError(e) })>> x2 why: Verus rejects a tuple-variant constructor used as a function value; eta-expanded to the closure it denotes
+        @sig
+            ensures
+                ret matches Ok(t) ==> (exists|d5: Seq<bech32::u5>| bech32::spec_decode(address@) == Some((t.0@, d5, Variant::Bech32m))
+                        && bech32::spec_from_base32(d5) == Some(t.2@))
+                    && t.2@.len() > 0 && spec_from_repr(t.2@[0]) == Some(t.1),
+                ret is Err ==> forall|h: HrpSet| accepts(h, address@) is None,
+        @*/
+        /*@fn radix-common/src/address/decoder.rs :: impl AddressBech32Decoder :: fn validate_and_decode
+        @sig
+            ensures
+                ret matches Ok(t) ==> accepts(self.hrp_set, address@) == Some((t.0, t.1@)),
+                ret is Err ==> accepts(self.hrp_set, address@) is None,
+        @*/
+    }
+    impl AddressBech32Encoder {
+        /*@fn radix-common/src/address/encoder.rs :: impl AddressBech32Encoder :: fn encode
+        @sig
+            ensures
+                ret matches Ok(text) ==> full_data@.len() > 0 && (spec_from_repr(full_data@[0]) matches Some(e)
+                    && bech32::spec_encode(hrp_of(self.hrp_set, e), bech32::spec_to_base32(full_data@), Variant::Bech32m) == Some(text@)),
+                full_data@.len() == 0 ==> ret is Err,
+                full_data@.len() > 0 && spec_from_repr(full_data@[0]) is None ==> ret is Err,
+        @*/
+        /*@fn radix-common/src/address/encoder.rs :: impl AddressBech32Encoder :: fn encode_to_fmt
+        @closure 1 := || -> (r: AddressBech32EncodeError) ensures r == AddressBech32EncodeError::InvalidEntityTypeId(full_data@[0])
+        @sig
+            ensures
+                ret is Ok ==> full_data@.len() > 0 && (spec_from_repr(full_data@[0]) matches Some(e)
+                    && (bech32::spec_encode(hrp_of(self.hrp_set, e), bech32::spec_to_base32(full_data@), Variant::Bech32m) matches Some(t)
+                    && final(fmt).text() == old(fmt).text() + t)),
+                full_data@.len() == 0 ==> ret == Err::<(), AddressBech32EncodeError>(AddressBech32EncodeError::MissingEntityTypeByte),
+                full_data@.len() > 0 && spec_from_repr(full_data@[0]) is None
+                    ==> ret == Err::<(), AddressBech32EncodeError>(AddressBech32EncodeError::InvalidEntityTypeId(full_data@[0])),
+        @*/
+    }
+
+    /// COROLLARY (address round trip and network binding), relative to the codec laws of the bech32 crate which
+    /// appear here as HYPOTHESES (they are not proved): if `text` is what the codec produces for (hrp, data) and
+    /// the codec reads it back, then the decoder of the SAME network returns (entity type, data), and the decoder
+    /// of any network whose HRP for that entity type differs rejects the text.
+    pub proof fn theorem_address_round_trip(h: HrpSet, other: HrpSet, data: Seq<u8>, e: EntityType, text: Seq<char>)
+        requires
+            data.len() > 0, spec_from_repr(data[0]) == Some(e),
+            bech32::spec_encode(hrp_of(h, e), bech32::spec_to_base32(data), Variant::Bech32m) == Some(text),
+            // codec laws (assumed of the third-party crate for this text)
+            bech32::spec_decode(text) == Some((hrp_of(h, e), bech32::spec_to_base32(data), Variant::Bech32m)),
+            bech32::spec_from_base32(bech32::spec_to_base32(data)) == Some(data),
+        ensures
+            accepts(h, text) == Some((e, data)),
+            hrp_of(other, e) != hrp_of(h, e) ==> accepts(other, text) is None,
+    {
     }
 }
 } // verus!
